@@ -160,7 +160,7 @@ def make_jobs(items, want, N, settings=None, timeout=150, extra=None):
     return jobs
 
 
-def run_tlc(traces, workers=16, timeout=3000):
+def run_tlc(traces, workers=16, timeout=1500):
     if not traces:
         return {}, {"states": 0, "distinct": 0, "tlc_runs": 0, "tlc_wall_s": 0.0, "D": []}, {}
     return tlc.run_batches(traces, workers=workers, timeout=timeout)
